@@ -9,7 +9,7 @@ OUT=/verif/seeded/$SID; mkdir -p $OUT
 LOG=$OUT/verify.log; : > $LOG
 cd $WT || exit 9
 git checkout -q -- . ; rm -f $CRATE/tests/$DEMO.rs
-cp seed_$K/demo.rs $CRATE/tests/$DEMO.rs
+mkdir -p $CRATE/tests; cp seed_$K/demo.rs $CRATE/tests/$DEMO.rs
 echo "## demo at HEAD" >> $LOG
 cargo test -p $CRATE --offline -j 8 --test $DEMO >> $LOG 2>&1; RC_HEAD=$?
 git apply seed_$K/patch.diff || { echo "PATCH DOES NOT APPLY" | tee -a $LOG; exit 8; }
